@@ -962,6 +962,12 @@ class NodeFor:
             return result
 
         if lst.isString():
+            if len(self.identifiers) != 1:
+                raise CklRuntimeError(
+                    ValueString("ERROR"),
+                    "Cannot destructure the characters of a string",
+                    self.pos,
+                )
             s = lst.value
             result = TRUE
             for i in range(len(s)):
